@@ -1,1 +1,397 @@
-// Harnesses that need crate-root privacy (collect, __collect, trace_counting, ...).
+// Contract harnesses for the collector entry points and steps in src/lib.rs (crate-root privacy):
+// collect_cycles, trigger_collection, collect, __trace_counting, __trace_roots, and the callback
+// dispatchers CcBox::finalize_inner / CcBox::drop_inner they call.
+use crate::cc::verif_proofs as ccp;
+use crate::cc::CcBox;
+use crate::lists::verif_proofs as lp;
+use crate::lists::{LinkedList, LinkedQueue};
+use crate::state::verif_proofs as sp;
+use crate::state::state;
+use crate::verif::ghost::{self, g};
+use crate::verif::probes::*;
+use crate::POSSIBLE_CYCLES;
+
+type P = ccp::P;
+
+fn lseq(l: &LinkedList) -> lp::Seq {
+    lp::seq(lp::ll_first(l))
+}
+fn qseq(q: &LinkedQueue) -> lp::Seq {
+    lp::qseq(lp::q_first(q))
+}
+
+// ------------------------------------------------------------------------------------------------
+// C12: a collection never starts while another one is in progress
+// ------------------------------------------------------------------------------------------------
+/// collect_cycles() / trigger_collection() with `collecting` set (any finalizing/dropping): nothing at
+/// all changes — executions count, flags, byte count, buffer, object headers — and no callback runs.
+//@ C12 C11 C15 | complete | deciding | feat=full,std | fn=collect_cycles,trigger_collection | timeout=600
+#[kani::proof]
+#[kani::unwind(9)]
+pub(crate) fn lib_collect_requests_are_noops_while_collecting() {
+    let h = ccp::mk_node(0);
+    let y = ccp::mk_node(1);
+    let z = ccp::mk_node(2);
+    let (x, py, pz) = (ccp::raw_of(&h), ccp::raw_of(&y), ccp::raw_of(&z));
+    let in_pc: bool = kani::any();
+    let (arr, n) = ccp::build_pc(x, [py, pz], in_pc);
+    let wx = ccp::havoc_idle(x, in_pc);
+    let (wy, wz) = (ccp::words_of(py), ccp::words_of(pz));
+    let (f, d): (bool, bool) = (kani::any(), kani::any());
+    #[cfg(not(feature = "finalization"))]
+    let f = false;
+    let execs: usize = kani::any();
+    state(|s| {
+        sp::set_flags(s, true, f, d);
+        sp::set_execs(s, execs);
+    });
+    // make the automatic trigger WANT to collect, so that only the `collecting` test stops it
+    #[cfg(feature = "auto-collect")]
+    let _ = crate::config::config(|c| {
+        c.set_auto_collect(true);
+        c.set_buffered_objects_threshold(None);
+    });
+    #[cfg(feature = "auto-collect")]
+    state(|s| sp::set_bytes(s, 1_000_000));
+    let sn0 = state(|s| sp::snap(s));
+    #[cfg(feature = "auto-collect")]
+    let thr0 = crate::config::config(|c| crate::config::verif_proofs::threshold(c)).unwrap_or(0);
+    if kani::any() {
+        crate::collect_cycles();
+    } else {
+        #[cfg(feature = "auto-collect")]
+        state(|s| crate::trigger_collection(s));
+    }
+    kani::assert(state(|s| sp::snap(s)) == sn0, "collect_cycles::while_collecting::frame::state_and_executions_count");
+    { let (a, b) = ccp::pc_is(&arr, n, None); kani::assert(a && b, "collect_cycles::while_collecting::frame::buffer"); }
+    kani::assert(ccp::words_of(x) == wx && ccp::words_of(py) == wy && ccp::words_of(pz) == wz, "collect_cycles::while_collecting::frame::objects");
+    kani::assert(ccp::cb_counts() == (0, 0, 0), "collect_cycles::while_collecting::frame::no_callback");
+    #[cfg(feature = "auto-collect")]
+    kani::assert(crate::config::config(|c| crate::config::verif_proofs::threshold(c)).unwrap_or(0) == thr0, "collect_cycles::while_collecting::frame::threshold");
+    core::mem::forget((h, y, z));
+}
+
+/// collect_cycles() outside a collection, empty buffer, called under ANY finalizing/dropping flags
+/// (i.e. also from a finalizer / destructor of a plain Cc::drop): executions +1 exactly, `collecting`
+/// false again afterwards, the other flags and the byte count untouched.
+//@ C11 C12 | complete | deciding | feat=full,std | fn=collect_cycles,collect | timeout=600
+#[kani::proof]
+#[kani::unwind(9)]
+pub(crate) fn lib_collect_cycles_empty_buffer_counts_one_execution() {
+    let (f, d): (bool, bool) = (kani::any(), kani::any());
+    #[cfg(not(feature = "finalization"))]
+    let f = false;
+    let execs: usize = kani::any();
+    kani::assume(execs < usize::MAX);
+    state(|s| {
+        sp::set_flags(s, false, f, d);
+        sp::set_execs(s, execs);
+    });
+    let sn0 = state(|s| sp::snap(s));
+    crate::collect_cycles();
+    let sn1 = state(|s| sp::snap(s));
+    kani::assert(sn1.execs == execs + 1, "collect::post::executions_count_plus_one");
+    kani::assert(!sn1.collecting, "collect::post::collecting_false_after");
+    kani::assert(sn1.finalizing == f && sn1.dropping == d && sn1.bytes == sn0.bytes, "collect::frame::other_flags_and_bytes");
+    kani::assert(ccp::pc_view().1 == 0 && ccp::cb_counts() == (0, 0, 0), "collect::empty::frame::buffer_and_callbacks");
+}
+
+/// trigger_collection: executions delta == [not collecting && should_collect(before)], at most 1,
+/// and 0 whenever auto_collect is off.  Buffer empty so that the collection itself is trivial.
+//@ C15 C11 | complete | deciding | feat=full,auto | fn=trigger_collection,Config::should_collect | timeout=600
+#[cfg(feature = "auto-collect")]
+#[kani::proof]
+#[kani::unwind(12)]
+pub(crate) fn lib_trigger_collection_policy() {
+    let auto: bool = kani::any();
+    let collecting: bool = kani::any();
+    // bytes around the initial threshold (100): 99, 100, 101 and a big value
+    let sel: u8 = kani::any();
+    kani::assume(sel < 4);
+    let bytes: usize = match sel { 0 => 99, 1 => 100, 2 => 101, _ => 1000 };
+    let bt: u8 = kani::any();
+    kani::assume(bt < 3);
+    let _ = crate::config::config(|c| {
+        c.set_auto_collect(auto);
+        c.set_buffered_objects_threshold(match bt { 0 => None, 1 => core::num::NonZeroUsize::new(1), _ => core::num::NonZeroUsize::new(5) });
+    });
+    let execs: usize = kani::any();
+    kani::assume(execs < usize::MAX);
+    state(|s| {
+        sp::set_flags(s, collecting, false, false);
+        sp::set_execs(s, execs);
+        sp::set_bytes(s, bytes);
+    });
+    let thr0 = crate::config::config(|c| crate::config::verif_proofs::threshold(c)).unwrap_or(0);
+    kani::assert(thr0 == 100, "Config::new::post::threshold_100");
+    state(|s| crate::trigger_collection(s));
+    let sn1 = state(|s| sp::snap(s));
+    let expect = !collecting && auto && bytes > 100; // buffer empty: the buffered clause (0 > b) is false
+    kani::assert(sn1.execs == execs + if expect { 1 } else { 0 }, "trigger_collection::post::collects_exactly_when_due_and_at_most_once");
+    kani::assert(auto || sn1.execs == execs, "trigger_collection::post::never_when_auto_collect_disabled");
+    kani::assert(sn1.collecting == collecting, "trigger_collection::post::collecting_flag_restored");
+    let thr1 = crate::config::config(|c| crate::config::verif_proofs::threshold(c)).unwrap_or(0);
+    if expect {
+        kani::assert(thr1 > bytes && crate::config::verif_proofs::thr_ok(thr1), "trigger_collection::post::threshold_adjusted_after_collection");
+    } else {
+        kani::assert(thr1 == thr0, "trigger_collection::frame::threshold_untouched_without_collection");
+    }
+}
+
+/// The buffered-objects clause of the trigger: with bytes below the threshold a collection starts
+/// exactly when buffered count > configured threshold.
+//@ C15 | complete | deciding | feat=full,auto | fn=trigger_collection,Config::should_collect | timeout=600
+#[cfg(feature = "auto-collect")]
+#[kani::proof]
+#[kani::unwind(12)]
+pub(crate) fn lib_trigger_collection_buffered_clause() {
+    let a = ccp::mk_node(0);
+    let b = ccp::mk_node(1);
+    // buffer both through the public API
+    drop(a.clone());
+    drop(b.clone());
+    let thr: u8 = kani::any();
+    kani::assume(thr >= 1 && thr <= 3);
+    let _ = crate::config::config(|c| c.set_buffered_objects_threshold(core::num::NonZeroUsize::new(thr as usize)));
+    state(|s| sp::set_bytes(s, 50));
+    let execs = state(|s| sp::snap(s)).execs;
+    kani::assert(ccp::pc_view().1 == 2, "Cc::drop::shared::post::buffered_count_plus_one_iff_was_not_buffered");
+    state(|s| crate::trigger_collection(s));
+    let e1 = state(|s| sp::snap(s)).execs;
+    kani::assert(e1 == execs + if 2 > thr as usize { 1 } else { 0 }, "trigger_collection::post::buffered_threshold_strictly_exceeded");
+    core::mem::forget((a, b));
+}
+
+// ------------------------------------------------------------------------------------------------
+// one counting step / one root-tracing step
+// ------------------------------------------------------------------------------------------------
+struct Env {
+    root: LinkedList,
+    non_root: LinkedList,
+    queue: LinkedQueue,
+}
+fn forget_env(env: Env) {
+    core::mem::forget(env.root);
+    core::mem::forget(env.non_root);
+    core::mem::forget(env.queue);
+}
+fn collecting_only() {
+    state(|s| sp::set_flags(s, true, false, false));
+}
+/// header for an object just taken from the buffer / queue: NonMarked, unlinked, tracing <= counter
+fn havoc_popped(x: P) -> (u16, u16) {
+    let t: u16 = kani::any();
+    // bit 15 of the counter word (side record allocated) stays as the real constructor left it: 0.
+    // It is masked, not assumed: a symbolic bit would make symbolic execution follow the
+    // side-record branch of CcBox::vtable() through a garbage pointer.
+    let c: u16 = kani::any::<u16>() & 0x7fff;
+    kani::assume(t >> 14 == 0 && (c & 0x3fff) >= 1 && (c & 0x3fff) <= 16382 && (t & 0x3fff) <= (c & 0x3fff));
+    ccp::set_words_of(x, t, c);
+    (t, c)
+}
+
+/// __trace_counting on an object without traced children: the callback runs exactly once with
+/// is_tracing() true; afterwards the object is InList, in non_root_list iff tracing == counter,
+/// in root_list otherwise; counters untouched.
+//@ C01 C02 C12 | complete | deciding | feat=full,std | fn=__trace_counting,CcBox::trace_inner | timeout=600
+#[kani::proof]
+#[kani::unwind(9)]
+pub(crate) fn lib_trace_counting_step_leaf() {
+    let h = ccp::mk_node(0);
+    let x = ccp::raw_of(&h);
+    let (y, z) = (lp::new_leaf_box(1), lp::new_leaf_box(2));
+    let (wy, wz) = (lp::havoc_words(y), lp::havoc_words(z));
+    let (t0, c0) = havoc_popped(x);
+    collecting_only();
+    let mut env = Env { root: lp::ll_from(Some(y)), non_root: lp::ll_from(Some(z)), queue: lp::q_from(None, None) };
+    crate::__trace_counting(x, &mut env.root, &mut env.non_root, &mut env.queue);
+    let gs = g();
+    kani::assert(gs.n_trace == 1 && gs.trace_calls[0] == 1, "__trace_counting::post::traced_exactly_once");
+    kani::assert(gs.trace_not_tracing == 0, "__trace_counting::post::callback_sees_is_tracing");
+    kani::assert(ccp::words_of(x) == ((t0 & 0x3fff) | 0x8000, c0), "__trace_counting::post::in_list_mark_counters_kept");
+    let garbage = (t0 & 0x3fff) == (c0 & 0x3fff);
+    let (r, nr) = (lseq(&env.root), lseq(&env.non_root));
+    kani::assert(r.wf && nr.wf, "__trace_counting::post::lists_wellformed");
+    kani::assert(lp::contains(&nr, x) == garbage, "__trace_counting::post::non_root_iff_all_references_counted");
+    kani::assert(lp::contains(&r, x) == !garbage, "__trace_counting::post::root_iff_external_reference_remains");
+    kani::assert(lp::contains(&r, y) && lp::contains(&nr, z) && r.len + nr.len == 3, "__trace_counting::frame::other_members");
+    kani::assert(ccp::words_of(y) == wy && ccp::words_of(z) == wz, "__trace_counting::frame::other_objects");
+    kani::assert(qseq(&env.queue).len == 0, "__trace_counting::frame::queue");
+    forget_env(env);
+    core::mem::forget(h);
+}
+
+/// ... with a traced child that this collection has not seen yet (NonMarked, STALE tracing counter):
+/// the child is queued with tracing counter 1; an UNTRACED child is not touched at all.
+//@ C01 C02 | complete | deciding | feat=full,std | fn=__trace_counting,CcBox::trace,Cc::trace | timeout=600
+#[kani::proof]
+#[kani::unwind(9)]
+pub(crate) fn lib_trace_counting_step_children() {
+    let h = ccp::mk_node(0);
+    let c1 = ccp::mk_node(1);
+    let c2 = ccp::mk_node(2);
+    let (x, y, z) = (ccp::raw_of(&h), ccp::raw_of(&c1), ccp::raw_of(&c2));
+    put(&ccp::peek_node(&h).s1, Some(c1));
+    put(&ccp::peek_node(&h).hidden, Some(c2));
+    let (t0, c0) = havoc_popped(x);
+    let wy = ccp::havoc_idle(y, false);
+    let wz = ccp::havoc_idle(z, false);
+    collecting_only();
+    let mut env = Env { root: lp::ll_from(None), non_root: lp::ll_from(None), queue: lp::q_from(None, None) };
+    crate::__trace_counting(x, &mut env.root, &mut env.non_root, &mut env.queue);
+    kani::assert(ccp::words_of(y) == (0xc000 | 1, wy.1), "__trace_counting::post::unseen_traced_child_queued_with_tracing_one");
+    let q = qseq(&env.queue);
+    kani::assert(q.len == 1 && q.e[0] == Some(y), "__trace_counting::post::unseen_traced_child_queued_with_tracing_one");
+    kani::assert(ccp::words_of(z) == wz && ccp::next_of(z).is_none() && ccp::prev_of(z).is_none(), "__trace_counting::frame::untraced_child_untouched");
+    let garbage = (t0 & 0x3fff) == (c0 & 0x3fff);
+    kani::assert(lp::contains(&lseq(&env.non_root), x) == garbage && lp::contains(&lseq(&env.root), x) == !garbage, "__trace_counting::post::non_root_iff_all_references_counted");
+    kani::assert(g().trace_calls[0] == 1 && g().trace_calls[1] == 0 && g().trace_calls[2] == 0, "__trace_counting::post::traced_exactly_once");
+    forget_env(env);
+    core::mem::forget(h);
+}
+
+/// ... with a self-loop: the object's own tracing counter is incremented by its own trace call and the
+/// partition uses the incremented value.
+//@ C01 C02 | complete | deciding | feat=full,std | fn=__trace_counting,CcBox::trace | timeout=600
+#[kani::proof]
+#[kani::unwind(9)]
+pub(crate) fn lib_trace_counting_step_self_loop() {
+    let h = ccp::mk_node(0);
+    let x = ccp::raw_of(&h);
+    let h2 = h.clone();
+    put(&ccp::peek_node(&h).s0, Some(h2));
+    let (t0, c0) = havoc_popped(x);
+    kani::assume((t0 & 0x3fff) < (c0 & 0x3fff));
+    collecting_only();
+    let mut env = Env { root: lp::ll_from(None), non_root: lp::ll_from(None), queue: lp::q_from(None, None) };
+    crate::__trace_counting(x, &mut env.root, &mut env.non_root, &mut env.queue);
+    kani::assert(ccp::words_of(x) == (((t0 & 0x3fff) + 1) | 0x8000, c0), "__trace_counting::post::self_reference_counted_once");
+    let garbage = (t0 & 0x3fff) + 1 == (c0 & 0x3fff);
+    kani::assert(lp::contains(&lseq(&env.non_root), x) == garbage && lp::contains(&lseq(&env.root), x) == !garbage, "__trace_counting::post::non_root_iff_all_references_counted");
+    kani::assert(qseq(&env.queue).len == 0, "__trace_counting::frame::queue");
+    forget_env(env);
+    core::mem::forget(h);
+}
+
+/// __trace_roots from a root: a traced child that is a garbage candidate (InList, counters equal)
+/// is rescued (leaves non_root_list, queued); an UNTRACED child and the root itself are untouched.
+//@ C01 C06 C12 | complete | deciding | feat=full,std | fn=__trace_roots,CcBox::trace | timeout=600
+#[kani::proof]
+#[kani::unwind(9)]
+pub(crate) fn lib_trace_roots_step() {
+    let h = ccp::mk_node(0);
+    let c1 = ccp::mk_node(1);
+    let c2 = ccp::mk_node(2);
+    let (x, y, z) = (ccp::raw_of(&h), ccp::raw_of(&c1), ccp::raw_of(&c2));
+    put(&ccp::peek_node(&h).s0, Some(c1));
+    put(&ccp::peek_node(&h).hidden, Some(c2));
+    // x: a root just removed from root_list; y, z: garbage candidates in non_root_list
+    let (tx, cx) = havoc_popped(x);
+    let cy: u16 = kani::any();
+    kani::assume(cy >= 1 && cy <= 16382);
+    let fy: u16 = kani::any();
+    ccp::set_words_of(y, 0x8000 | cy, (fy & 0x4000) | cy);
+    ccp::set_words_of(z, 0x8000 | 1, 1);
+    let wz = ccp::words_of(z);
+    let order: bool = kani::any();
+    let first = if order { lp::chain(&[y, z], 2) } else { lp::chain(&[z, y], 2) };
+    collecting_only();
+    let mut env = Env { root: lp::ll_from(None), non_root: lp::ll_from(first), queue: lp::q_from(None, None) };
+    crate::__trace_roots(x, &mut env.non_root, &mut env.queue);
+    kani::assert(g().n_trace == 1 && g().trace_calls[0] == 1 && g().trace_not_tracing == 0, "__trace_roots::post::traced_once_while_tracing");
+    kani::assert(ccp::words_of(x) == (tx, cx), "__trace_roots::frame::root_itself");
+    kani::assert(ccp::words_of(y) == (0xc000 | cy, (fy & 0x4000) | cy), "__trace_roots::post::reachable_candidate_rescued");
+    let nr = lseq(&env.non_root);
+    kani::assert(nr.wf && nr.len == 1 && nr.e[0] == Some(z), "__trace_roots::post::reachable_candidate_leaves_non_root_list");
+    let q = qseq(&env.queue);
+    kani::assert(q.len == 1 && q.e[0] == Some(y), "__trace_roots::post::rescued_object_queued_for_root_tracing");
+    kani::assert(ccp::words_of(z) == wz, "__trace_roots::frame::untraced_child_untouched");
+    forget_env(env);
+    core::mem::forget(h);
+}
+
+// ------------------------------------------------------------------------------------------------
+// callback dispatchers
+// ------------------------------------------------------------------------------------------------
+/// finalize_inner: returns `needs_finalization` as it was; sets the flag BEFORE calling the finalizer;
+/// calls it exactly once iff it was due; touches nothing else.
+/// The counter word is concrete per case (finalized bit x count class): with a symbolic counter word
+/// CBMC cannot resolve the vtable read in CcBox::vtable() (it depends on bit 15 of that word) and
+/// explores every function of matching signature.  The tracing word (mark + tracing counter) is symbolic.
+fn finalize_inner_case(c0: u16) {
+    let h = ccp::mk_node(0);
+    let x = ccp::raw_of(&h);
+    let t0: u16 = kani::any();
+    kani::assume((t0 & 0x3fff) != 0x3fff);
+    ccp::set_words_of(x, t0, c0);
+    state(|s| sp::set_flags(s, true, true, false));
+    let due = c0 & 0x4000 == 0;
+    let r = CcBox::finalize_inner(x);
+    let gs = g();
+    kani::assert(r == due, "CcBox::finalize_inner::post::returns_whether_it_finalized");
+    kani::assert(gs.n_fin == if due { 1 } else { 0 }, "CcBox::finalize_inner::post::finalizer_called_once_iff_due");
+    kani::assert(gs.fin_bit_unset_in_cb == 0, "CcBox::finalize_inner::post::flag_set_before_callback");
+    kani::assert(gs.fin_while_tracing == 0, "CcBox::finalize_inner::post::callback_not_tracing");
+    kani::assert(ccp::words_of(x) == (t0, c0 | 0x4000), "CcBox::finalize_inner::post::only_the_finalized_bit_changes");
+    kani::assert(gs.n_drop == 0 && gs.n_trace == 0 && gs.canary_broken == 0, "CcBox::finalize_inner::frame::no_other_callback");
+    core::mem::forget(h);
+}
+//@ C05 | complete | deciding | feat=full,fin | fn=CcBox::finalize_inner | timeout=600
+#[cfg(feature = "finalization")]
+#[kani::proof]
+#[kani::unwind(9)]
+pub(crate) fn lib_finalize_inner_due() {
+    finalize_inner_case(3);
+}
+//@ C05 | complete | deciding | feat=full,fin | fn=CcBox::finalize_inner | timeout=600
+#[cfg(feature = "finalization")]
+#[kani::proof]
+#[kani::unwind(9)]
+pub(crate) fn lib_finalize_inner_already_finalized() {
+    finalize_inner_case(0x4000 | 3);
+}
+//@ C05 C16 | complete | deciding | thorough | feat=full,fin | fn=CcBox::finalize_inner | timeout=600
+#[cfg(feature = "finalization")]
+#[kani::proof]
+#[kani::unwind(9)]
+pub(crate) fn lib_finalize_inner_due_count_max() {
+    finalize_inner_case(16382);
+}
+
+/// drop_inner: marks the object dropped (weak-ptrs) BEFORE the destructor, runs the destructor exactly
+/// once, does not free the box and does not touch the reference counter.  (Counter word concrete per
+/// case, tracing word symbolic: see finalize_inner_case.)
+fn drop_inner_case(c0: u16) {
+    let h = ccp::mk_node(0);
+    let x = ccp::raw_of(&h);
+    let t0: u16 = kani::any();
+    kani::assume((t0 & 0x3fff) != 0x3fff);
+    ccp::set_words_of(x, t0, c0);
+    state(|s| sp::set_flags(s, true, false, true));
+    let b0 = state(|s| sp::snap(s)).bytes;
+    unsafe { CcBox::drop_inner(x) };
+    let gs = g();
+    kani::assert(gs.n_drop == 1 && gs.drop_calls[0] == 1, "CcBox::drop_inner::post::destructor_called_once");
+    kani::assert(gs.drop_not_marked_dropped == 0, "CcBox::drop_inner::post::marked_dropped_before_destructor");
+    kani::assert(gs.drop_while_tracing == 0 && gs.canary_broken == 0, "CcBox::drop_inner::post::callback_not_tracing_value_intact");
+    let (t1, c1) = ccp::words_of(x); // the box is still allocated (CBMC pointer checks on this read)
+    kani::assert(c1 == c0, "CcBox::drop_inner::frame::reference_counter_word");
+    #[cfg(feature = "weak-ptrs")]
+    kani::assert(t1 == (t0 | 0x3fff), "CcBox::drop_inner::post::dropped_marker_set_mark_kept");
+    #[cfg(not(feature = "weak-ptrs"))]
+    kani::assert(t1 == t0, "CcBox::drop_inner::frame::tracing_word");
+    kani::assert(state(|s| sp::snap(s)).bytes == b0 && gs.n_fin == 0, "CcBox::drop_inner::frame::not_freed_not_finalized");
+    core::mem::forget(h);
+}
+//@ C08 C03 | complete | deciding | feat=full,std | fn=CcBox::drop_inner | timeout=600
+#[kani::proof]
+#[kani::unwind(9)]
+pub(crate) fn lib_drop_inner_contract() {
+    drop_inner_case(0x4000);
+}
+//@ C08 C03 | complete | deciding | thorough | feat=full,std | fn=CcBox::drop_inner | timeout=600
+#[kani::proof]
+#[kani::unwind(9)]
+pub(crate) fn lib_drop_inner_contract_count_two_unfinalized() {
+    drop_inner_case(2);
+}
